@@ -231,4 +231,403 @@ theorem exists_admissible (F : Fam) (k : Sink) (I : F.σ → Prop) (L : Laws F) 
     simp only [hp, budgetOf_succ_isZero, Bool.false_eq_true, if_false, budgetOf_succ_dec]
     exact admissible_of_fits F k cap _ (fits_append k cap 0 _ _ _ _ hfit)
 
+/-! ## the law for every family -/
+
+theorem replRoom_le_needAstral (k : Sink) : replRoom k ≤ needAstral k := by cases k <;> decide
+theorem needBmp_le_needAstral (k : Sink) : needBmp k ≤ needAstral k := by cases k <;> decide
+theorem needAstral_eq_minCap (k : Sink) : needAstral k = minCap k := by cases k <;> rfl
+theorem one_add_replRoom_le_minCap (k : Sink) : 1 + replRoom k ≤ minCap k := by cases k <;> decide
+
+/-! ### single-byte, x-user-defined, replacement -/
+
+theorem singleByte_stopLaw (t : Array Nat) (ht : TableBmp t) (k : Sink) :
+    StopLaw (singleByteFam t) k (fun _ => True) where
+  inv_step := fun _ _ _ _ _ => trivial
+  inv_pend := fun _ _ _ _ _ => trivial
+  step_ok := by
+    intro s b _ _ hb _
+    show unitsOfList k (singleByteFeed t s b).out + eofRoom (singleByteFam t) k _ ≤ needBmp k
+    rw [eofRoom_of_eof_none _ _ _ rfl]
+    exact (singleByte_facts t ht s b hb).2.1 k
+  step_err := by
+    intro s b e _ _ hb he
+    have he' : (singleByteFeed t s b).err = some e := he
+    show unitsOfList k (singleByteFeed t s b).out + replRoom k ≤ needBmp k
+    rw [(singleByte_facts t ht s b hb).2.2 (by rw [he']; simp), units_nil, replRoom_eq_needBmp]
+    omega
+  flush := by intro s o s' _ h; cases h
+
+theorem userDefined_stopLaw (k : Sink) : StopLaw userDefinedFam k (fun _ => True) where
+  inv_step := fun _ _ _ _ _ => trivial
+  inv_pend := fun _ _ _ _ _ => trivial
+  step_ok := by
+    intro s b _ _ hb _
+    show unitsOfList k (userDefinedFeed s b).out + eofRoom userDefinedFam k _ ≤ needBmp k
+    rw [eofRoom_of_eof_none _ _ _ rfl]
+    exact (userDefined_facts s b hb).2 k
+  step_err := by
+    intro s b e _ _ hb he
+    have he' : (userDefinedFeed s b).err = some e := he
+    rw [(userDefined_facts s b hb).1] at he'; cases he'
+  flush := by intro s o s' _ h; cases h
+
+theorem replacement_stopLaw (k : Sink) : StopLaw replacementFam k (fun _ => True) where
+  inv_step := fun _ _ _ _ _ => trivial
+  inv_pend := fun _ _ _ _ _ => trivial
+  step_ok := by
+    intro (s : Bool) b _ _ _ he
+    have he' : (replacementFeed s b).err = none := he
+    show unitsOfList k (replacementFeed s b).out + eofRoom replacementFam k _ ≤ (if s then 0 else needBmp k)
+    rw [eofRoom_of_eof_none _ _ _ rfl]
+    cases s with
+    | true => simp [replacementFeed, FeedRes.ok, units_nil]
+    | false => simp [replacementFeed, FeedRes.bad] at he'
+  step_err := by
+    intro (s : Bool) b e _ _ _ he
+    have he' : (replacementFeed s b).err = some e := he
+    show unitsOfList k (replacementFeed s b).out + replRoom k ≤ (if s then 0 else needBmp k)
+    cases s with
+    | true => simp [replacementFeed, FeedRes.ok] at he'
+    | false => simp [replacementFeed, FeedRes.bad, units_nil, replRoom_eq_needBmp]
+  flush := by intro s o s' _ h; cases h
+
+/-! ### UTF-8 -/
+
+theorem utf8_eofRoom (k : Sink) (s : Utf8St) (h : Gen.MaxLen.utf8ExtraFromState s = 0) : eofRoom utf8Fam k s = 0 := by
+  apply eofRoom_of_eof_none
+  show (if s.needed ≠ 0 then some ((s.seen + 1, 0), utf8Init) else none) = none
+  have hn : s.needed = 0 := by
+    unfold Gen.MaxLen.utf8ExtraFromState at h
+    split at h
+    · assumption
+    · omega
+  simp [hn]
+
+theorem utf8_stopLaw (k : Sink) : StopLaw utf8Fam k utf8Inv where
+  inv_step := fun s b hi _ hb => (utf8_step s b hi hb).1
+  inv_pend := by intro s o s' _ h; cases h
+  step_ok := by
+    intro (s : Utf8St) b hi _ hb he
+    have he' : (utf8Feed s b).err = none := he
+    show unitsOfList k (utf8Feed s b).out + eofRoom utf8Fam k (utf8Feed s b).st ≤ needAstral k
+    rcases utf8_facts s b hi hb with ⟨_, _, ho, _⟩ | ⟨_, _, hx, c, ho, _, _⟩ | ⟨⟨e, h⟩, _⟩
+    · rw [ho, units_nil]
+      have := eofRoom_le utf8Fam k (utf8Feed s b).st
+      have := replRoom_le_needAstral k
+      omega
+    · rw [ho, units_single, utf8_eofRoom k _ hx]
+      have := unitsOf_le_astral k c
+      omega
+    · rw [he'] at h; cases h
+  step_err := by
+    intro (s : Utf8St) b e hi _ hb he
+    have he' : (utf8Feed s b).err = some e := he
+    show unitsOfList k (utf8Feed s b).out + replRoom k ≤ needAstral k
+    rcases utf8_facts s b hi hb with ⟨h, _⟩ | ⟨h, _⟩ | ⟨_, ho, _⟩
+    · rw [he'] at h; cases h
+    · rw [he'] at h; cases h
+    · rw [ho, units_nil]
+      have := replRoom_le_needAstral k
+      omega
+  flush := by intro s o s' _ h; cases h
+
+/-! ### UTF-16LE/BE: the end-of-stream block checks for room itself (`eofNeed`), so no room has to
+be kept free between steps -/
+
+theorem utf16_eofRoom (be : Bool) (k : Sink) (s : Utf16St) : eofRoom (utf16Fam be) k s = 0 :=
+  eofRoom_of_eofNeed _ _ _ (by
+    show replRoom k ≤ needBmp k
+    rw [replRoom_eq_needBmp]; exact Nat.le_refl _)
+
+theorem utf16_stopLaw (be : Bool) (k : Sink) : StopLaw (utf16Fam be) k utf16InvB where
+  inv_step := fun s b hi hp hb => (utf16_facts be s b hi ((utf16_pend_none_iff s be).mp hp) hb).1
+  inv_pend := fun s o s' hi h => (utf16_pend_facts be s o s' hi h).1
+  step_ok := by
+    intro (s : Utf16St) b hi hp hb he
+    have he' : (utf16Feed be s b).err = none := he
+    have hf := (utf16_facts be s b hi ((utf16_pend_none_iff s be).mp hp) hb).2
+    show unitsOfList k (utf16Feed be s b).out + eofRoom (utf16Fam be) k (utf16Feed be s b).st ≤ needAstral k
+    rw [utf16_eofRoom]
+    unfold Utf16Facts at hf
+    simp only at hf
+    rcases hf with ⟨_, ho, _⟩ | ⟨_, _, _, c, ho⟩ | ⟨_, _, _, c, ho, _⟩ | ⟨⟨e, h⟩, _⟩ | ⟨⟨e, h⟩, _⟩
+    · rw [ho, units_nil]; omega
+    · rw [ho, units_single]; have := unitsOf_le_astral k c; omega
+    · rw [ho, units_single]; have := unitsOf_le_astral k c; omega
+    · rw [he'] at h; cases h
+    · rw [he'] at h; cases h
+  step_err := by
+    intro (s : Utf16St) b e hi hp hb he
+    have he' : (utf16Feed be s b).err = some e := he
+    have hf := (utf16_facts be s b hi ((utf16_pend_none_iff s be).mp hp) hb).2
+    show unitsOfList k (utf16Feed be s b).out + replRoom k ≤ needAstral k
+    unfold Utf16Facts at hf
+    simp only at hf
+    have := replRoom_le_needAstral k
+    rcases hf with ⟨h, _⟩ | ⟨h, _⟩ | ⟨h, _⟩ | ⟨_, _, ho, _⟩ | ⟨_, _, ho, _⟩
+    · rw [he'] at h; cases h
+    · rw [he'] at h; cases h
+    · rw [he'] at h; cases h
+    · rw [ho, units_nil]; omega
+    · rw [ho, units_nil]; omega
+  flush := by
+    intro (s : Utf16St) o (s' : Utf16St) hi h
+    obtain ⟨_, _, c, ho, _⟩ := utf16_pend_facts be s o s' hi h
+    rw [utf16_eofRoom, ho, units_single]
+    have := unitsOf_le_astral k c
+    have := needAstral_eq_minCap k
+    omega
+
+/-! ### Big5, EUC-KR, Shift_JIS -/
+
+theorem replRoom_le_twoByteNeed (astral : Bool) (k : Sink) :
+    replRoom k ≤ (if astral then needAstral k else needBmp k) := by
+  cases astral <;> cases k <;> decide
+
+theorem twoByte_stopLaw (lf : Nat → LeadRes) (tf : Nat → Nat → TrailRes) (astral : Bool) (k : Sink)
+    (S : checkLead lf = true) (T : checkTrail tf = true) (a1 a2 : Nat)
+    (hl : checkLeadU lf k a1 = true) (h1 : 1 ≤ a1) (ht : checkTrailU tf k a2 = true)
+    (ha1 : a1 ≤ (if astral then needAstral k else needBmp k))
+    (ha2 : a2 ≤ (if astral then needAstral k else needBmp k)) :
+    StopLaw (twoByteFam lf tf astral) k (fun s => ∀ l, s = some l → l < 256) where
+  inv_step := fun s b hi hp hb => ((twoByteScalar lf tf astral S T).step s b hi hp hb).1
+  inv_pend := by intro s o s' _ h; cases h
+  step_ok := by
+    intro (s : Option Nat) b hi _ hb he
+    have he' : (twoByteFeed lf tf s b).err = none := he
+    show unitsOfList k (twoByteFeed lf tf s b).out + eofRoom (twoByteFam lf tf astral) k (twoByteFeed lf tf s b).st
+      ≤ (if astral then needAstral k else needBmp k)
+    have h0 : eofRoom (twoByteFam lf tf astral) k (none : Option Nat) = 0 := eofRoom_of_eof_none _ _ _ rfl
+    have hr := replRoom_le_twoByteNeed astral k
+    rcases twoByte_facts lf tf k a1 a2 hl h1 ht s b hi hb with
+      ⟨_, _, hst, hu⟩ | ⟨_, _, _, ho⟩ | ⟨_, ⟨e, h⟩, _⟩ | ⟨_, _, hst, hu⟩ | ⟨_, ⟨e, h⟩, _⟩
+    · rw [hst, h0]; omega
+    · rw [ho, units_nil]
+      have := eofRoom_le (twoByteFam lf tf astral) k (twoByteFeed lf tf s b).st
+      omega
+    · rw [he'] at h; cases h
+    · rw [hst, h0]; omega
+    · rw [he'] at h; cases h
+  step_err := by
+    intro (s : Option Nat) b e hi _ hb he
+    have he' : (twoByteFeed lf tf s b).err = some e := he
+    show unitsOfList k (twoByteFeed lf tf s b).out + replRoom k ≤ (if astral then needAstral k else needBmp k)
+    have hr := replRoom_le_twoByteNeed astral k
+    rcases twoByte_facts lf tf k a1 a2 hl h1 ht s b hi hb with
+      ⟨_, h, _⟩ | ⟨_, h, _⟩ | ⟨_, _, _, ho, _⟩ | ⟨_, h, _⟩ | ⟨_, _, _, ho⟩
+    · rw [he'] at h; cases h
+    · rw [he'] at h; cases h
+    · rw [ho, units_nil]; omega
+    · rw [he'] at h; cases h
+    · rw [ho, units_nil]; omega
+  flush := by intro s o s' _ h; cases h
+
+theorem big5_stopLaw (k : Sink) : StopLaw big5Fam k (fun s => ∀ l, s = some l → l < 256) := by
+  cases k
+  · exact twoByte_stopLaw big5Lead big5Trail true .utf8 big5_checks.1 big5_checks.2 1 4
+      big5_units.2.1 (Nat.le_refl _) big5_units.2.2.2 (by decide) (by decide)
+  · exact twoByte_stopLaw big5Lead big5Trail true .utf16 big5_checks.1 big5_checks.2 1 2
+      big5_units.1 (Nat.le_refl _) big5_units.2.2.1 (by decide) (by decide)
+
+theorem eucKr_stopLaw (k : Sink) : StopLaw eucKrFam k (fun s => ∀ l, s = some l → l < 256) := by
+  cases k
+  · exact twoByte_stopLaw eucKrLead eucKrTrail false .utf8 eucKr_checks.1 eucKr_checks.2 1 3
+      eucKr_units.2.1 (Nat.le_refl _) eucKr_units.2.2.2 (by decide) (by decide)
+  · exact twoByte_stopLaw eucKrLead eucKrTrail false .utf16 eucKr_checks.1 eucKr_checks.2 1 1
+      eucKr_units.1 (Nat.le_refl _) eucKr_units.2.2.1 (by decide) (by decide)
+
+theorem shiftJis_stopLaw (k : Sink) : StopLaw shiftJisFam k (fun s => ∀ l, s = some l → l < 256) := by
+  cases k
+  · exact twoByte_stopLaw shiftJisLead shiftJisTrail false .utf8 shiftJis_checks.1 shiftJis_checks.2 3 3
+      shiftJis_units.2.1 (by decide) shiftJis_units.2.2.2 (by decide) (by decide)
+  · exact twoByte_stopLaw shiftJisLead shiftJisTrail false .utf16 shiftJis_checks.1 shiftJis_checks.2 1 1
+      shiftJis_units.1 (Nat.le_refl _) shiftJis_units.2.2.1 (by decide) (by decide)
+
+/-! ### EUC-JP -/
+
+theorem eucJp_eofRoom (k : Sink) (s : EucJpSt) (h : eucJpPending s = false) : eofRoom eucJpFam k s = 0 := by
+  apply eofRoom_of_eof_none
+  cases s <;> first | rfl | cases h
+
+theorem eucJp_stopLaw (k : Sink) : StopLaw eucJpFam k eucJpInv where
+  inv_step := fun s b hi hp hb => (eucJpScalar.step s b hi hp hb).1
+  inv_pend := by intro s o s' _ h; cases h
+  step_ok := by
+    intro (s : EucJpSt) b hi _ hb he
+    have he' : (eucJpFeed s b).err = none := he
+    show unitsOfList k (eucJpFeed s b).out + eofRoom eucJpFam k (eucJpFeed s b).st ≤ needBmp k
+    have hf := eucJp_facts k s b hi hb
+    unfold EucJpFacts at hf
+    simp only at hf
+    have hpos := needBmp_pos k
+    have hrl := eofRoom_le eucJpFam k (eucJpFeed s b).st
+    rw [replRoom_eq_needBmp] at hrl
+    rcases hf with ⟨_, _, hst, hu⟩ | ⟨_, _, _, ho⟩ | ⟨_, ⟨e, h⟩, _⟩ | ⟨_, _, hst, hu⟩ | ⟨_, ⟨e, h⟩, _⟩
+      | ⟨_, _, _, ho⟩
+    · rw [eucJp_eofRoom k _ hst]; omega
+    · rw [ho, units_nil]; omega
+    · rw [he'] at h; cases h
+    · rw [eucJp_eofRoom k _ hst]; omega
+    · rw [he'] at h; cases h
+    · rw [ho, units_nil]; omega
+  step_err := by
+    intro (s : EucJpSt) b e hi _ hb he
+    have he' : (eucJpFeed s b).err = some e := he
+    show unitsOfList k (eucJpFeed s b).out + replRoom k ≤ needBmp k
+    have hf := eucJp_facts k s b hi hb
+    unfold EucJpFacts at hf
+    simp only at hf
+    rw [replRoom_eq_needBmp]
+    rcases hf with ⟨_, h, _⟩ | ⟨_, h, _⟩ | ⟨_, _, _, ho, _⟩ | ⟨_, h, _⟩ | ⟨_, _, _, ho⟩ | ⟨_, h, _⟩
+    · rw [he'] at h; cases h
+    · rw [he'] at h; cases h
+    · rw [ho, units_nil]; omega
+    · rw [he'] at h; cases h
+    · rw [ho, units_nil]; omega
+    · rw [he'] at h; cases h
+  flush := by intro s o s' _ h; cases h
+
+/-! ### gb18030 / GBK: the delayed ASCII digit is flushed into a destination of at least `minCap`,
+which leaves room for the U+FFFD of a pending lead byte -/
+
+theorem gb_eofRoom (k : Sink) (s : GbSt) (h : gbW s = 0) : eofRoom gbFam k s = 0 := by
+  apply eofRoom_of_eof_none
+  obtain ⟨p, pa⟩ := s
+  show (if p = GbPending.none then none else some ((gbCount p, 0), (⟨GbPending.none, pa⟩ : GbSt))) = none
+  have hp : p = GbPending.none := by
+    cases p <;> simp_all [gbW, gbCount] <;> omega
+  simp [hp]
+
+theorem gb_stopLaw (k : Sink) : StopLaw gbFam k gbInv where
+  inv_step := fun s b hi hp hb => (gbScalar.step s b hi hp hb).1
+  inv_pend := fun s o s' hi h => (gbScalar.pend s o s' hi h).1
+  step_ok := by
+    intro (s : GbSt) b hi hp hb he
+    have hpa := gb_pend_none s hp
+    obtain ⟨p, pa⟩ := s
+    simp only at hpa; subst hpa
+    have he' : (gbFeed ⟨p, none⟩ b).err = none := he
+    show unitsOfList k (gbFeed ⟨p, none⟩ b).out + eofRoom gbFam k (gbFeed ⟨p, none⟩ b).st ≤ needAstral k
+    have hba := needBmp_le_needAstral k
+    have hrl := eofRoom_le gbFam k (gbFeed ⟨p, none⟩ b).st
+    have hra := replRoom_le_needAstral k
+    rcases gb_facts k p b hi hb with ⟨_, hw, hu⟩ | ⟨_, ho, _⟩ | ⟨_, _, hw, c, ho⟩ | ⟨⟨e, h⟩, _⟩ | ⟨⟨e, h⟩, _⟩
+    · rw [gb_eofRoom k _ hw]; omega
+    · rw [ho, units_nil]; omega
+    · rw [gb_eofRoom k _ hw, ho, units_single]
+      have := unitsOf_le_astral k c
+      omega
+    · rw [he'] at h; cases h
+    · rw [he'] at h; cases h
+  step_err := by
+    intro (s : GbSt) b e hi hp hb he
+    have hpa := gb_pend_none s hp
+    obtain ⟨p, pa⟩ := s
+    simp only at hpa; subst hpa
+    have he' : (gbFeed ⟨p, none⟩ b).err = some e := he
+    show unitsOfList k (gbFeed ⟨p, none⟩ b).out + replRoom k ≤ needAstral k
+    have hra := replRoom_le_needAstral k
+    rcases gb_facts k p b hi hb with ⟨h, _⟩ | ⟨h, _⟩ | ⟨h, _⟩ | ⟨_, ho, _⟩ | ⟨_, ho, _⟩
+    · rw [he'] at h; cases h
+    · rw [he'] at h; cases h
+    · rw [he'] at h; cases h
+    · rw [ho, units_nil]; omega
+    · rw [ho, units_nil]; omega
+  flush := by
+    intro (s : GbSt) o (s' : GbSt) hi h
+    obtain ⟨p, pa⟩ := s
+    cases pa with
+    | none => cases h
+    | some a =>
+      cases h
+      have ha : a < 0x80 := hi.2 a rfl
+      have hrl := eofRoom_le gbFam k (⟨p, none⟩ : GbSt)
+      have := one_add_replRoom_le_minCap k
+      show unitsOfList k [a] + eofRoom gbFam k (⟨p, none⟩ : GbSt) ≤ minCap k
+      rw [units_single, unitsOf_ascii k a ha]
+      omega
+
+/-! ### ISO-2022-JP: the end-of-stream block checks for room itself (after the repair of finding F7) -/
+
+theorem iso_eofRoom (k : Sink) (s : Iso2022JpSt) : eofRoom iso2022JpFam k s = 0 :=
+  eofRoom_of_eofNeed _ _ _ (by
+    show replRoom k ≤ needBmp k
+    rw [replRoom_eq_needBmp]; exact Nat.le_refl _)
+
+theorem iso_stopLaw (k : Sink) : StopLaw iso2022JpFam k isoInvB where
+  inv_step := by
+    intro (s : Iso2022JpSt) b hi hp hb
+    have hpp : s.pendingPrepended = false := (iso_pend_none_iff s).mp hp
+    obtain ⟨ds, os, l, f, p⟩ := s
+    simp only at hpp; subst hpp
+    exact (iso_facts k ds os l f b hi hb).1
+  inv_pend := fun s o s' hi h => (iso_pend_facts k s o s' hi h).1
+  step_ok := by
+    intro (s : Iso2022JpSt) b hi hp hb he
+    have hpp : s.pendingPrepended = false := (iso_pend_none_iff s).mp hp
+    obtain ⟨ds, os, l, f, p⟩ := s
+    simp only at hpp; subst hpp
+    have he' : (isoFeed ⟨ds, os, l, f, false⟩ b).err = none := he
+    show unitsOfList k (isoFeed ⟨ds, os, l, f, false⟩ b).out
+      + eofRoom iso2022JpFam k (isoFeed ⟨ds, os, l, f, false⟩ b).st ≤ needBmp k
+    rw [iso_eofRoom]
+    rcases (iso_facts k ds os l f b hi hb).2 with ⟨_, _, hu⟩ | ⟨_, ho, _⟩ | ⟨⟨e, h⟩, _⟩ | ⟨⟨e, h⟩, _⟩
+    · omega
+    · rw [ho, units_nil]; omega
+    · rw [he'] at h; cases h
+    · rw [he'] at h; cases h
+  step_err := by
+    intro (s : Iso2022JpSt) b e hi hp hb he
+    have hpp : s.pendingPrepended = false := (iso_pend_none_iff s).mp hp
+    obtain ⟨ds, os, l, f, p⟩ := s
+    simp only at hpp; subst hpp
+    have he' : (isoFeed ⟨ds, os, l, f, false⟩ b).err = some e := he
+    show unitsOfList k (isoFeed ⟨ds, os, l, f, false⟩ b).out + replRoom k ≤ needBmp k
+    rw [replRoom_eq_needBmp]
+    rcases (iso_facts k ds os l f b hi hb).2 with ⟨h, _⟩ | ⟨h, _⟩ | ⟨_, ho, _⟩ | ⟨_, ho, _⟩
+    · rw [he'] at h; cases h
+    · rw [he'] at h; cases h
+    · rw [ho, units_nil]; omega
+    · rw [ho, units_nil]; omega
+  flush := by
+    intro (s : Iso2022JpSt) o (s' : Iso2022JpSt) hi h
+    rw [iso_eofRoom]
+    have hm : needBmp k ≤ minCap k := by cases k <;> decide
+    rcases (iso_pend_facts k s o s' hi h).2.2 with ⟨_, hu⟩ | ⟨_, ho⟩
+    · omega
+    · rw [ho, units_nil]; omega
+
+/-! ## every variant -/
+
+theorem variant_stopLaw (v : Gen.Variant) (k : Sink) : StopLaw (famOfVariant v) k (variantInv v) := by
+  cases v with
+  | singleByte t a b c => exact singleByte_stopLaw _ (gen_tables_bmp t) k
+  | utf8 => exact utf8_stopLaw k
+  | gbk => exact gb_stopLaw k
+  | gb18030 => exact gb_stopLaw k
+  | big5 => exact big5_stopLaw k
+  | eucJp => exact eucJp_stopLaw k
+  | iso2022Jp => exact iso_stopLaw k
+  | shiftJis => exact shiftJis_stopLaw k
+  | eucKr => exact eucKr_stopLaw k
+  | replacement => exact replacement_stopLaw k
+  | utf16Be => exact utf16_stopLaw true k
+  | utf16Le => exact utf16_stopLaw false k
+  | userDefined => exact userDefined_stopLaw k
+
+/-- **C06, decoder side, non-vacuity of `Admissible`**: for every variant decoder, every state
+satisfying the state invariant, every source, `last` flag and every capacity of at least the
+documented minimum, some stop budget makes the raw call admissible. -/
+theorem exists_admissible_variant (v : Gen.Variant) (k : Sink) (s : (famOfVariant v).σ) (hi : variantInv v s)
+    (src : List Nat) (hb : ∀ b ∈ src, b < 256) (last : Bool) (cap : Nat) (hcap : minCap k ≤ cap) :
+    ∃ budget, Admissible (famOfVariant v) k cap (Model.call (famOfVariant v) k s src last budget) :=
+  exists_admissible (famOfVariant v) k (variantInv v) (famOfVariant_laws v) (variant_stopLaw v k) s hi src hb
+    last cap hcap
+
+/-- the same for every state reached by any history of raw calls from the initial state -/
+theorem exists_admissible_reachable (v : Gen.Variant) (k : Sink) (s : (famOfVariant v).σ) (hr : Reach v s)
+    (src : List Nat) (hb : ∀ b ∈ src, b < 256) (last : Bool) (cap : Nat) (hcap : minCap k ≤ cap) :
+    ∃ budget, Admissible (famOfVariant v) k cap (Model.call (famOfVariant v) k s src last budget) :=
+  exists_admissible_variant v k s (variant_inv_reachable v s hr) src hb last cap hcap
+
 end EncodingRs.Thm.C06Exists
